@@ -3,7 +3,7 @@ CONSTANTS
   Pubs = {"p1", "p2"}
   MaxMsgs = 3
   MaxPerPub = 2
-  MaxReads = 1
+  MaxReads = 0
   OccSet = {TRUE, FALSE}
   BatchSet = {2}
   Kinds = {"waive", "stale", "equal", "future"}
